@@ -61,6 +61,9 @@ struct Spec {
 struct Monitor {
   std::atomic<int> quit{0};
   std::atomic<int> opState{0}; // 0 idle, 1 an operation is running
+  // sequence number of the running operation (release by main after the parameters below were
+  // written, acquire by the monitor: an edge between these two harness threads only)
+  std::atomic<uint64_t> opSeq{0};
   std::atomic<int> judge{0}; // 1: the stopped generation is wake mode with a long backstop
   std::atomic<int> gateSite{0};
   std::atomic<int> gateOpenMode{0};
@@ -85,6 +88,7 @@ struct Monitor {
   void run() {
     monTid.store(myTid(), std::memory_order_relaxed);
     while (!quit.load(std::memory_order_relaxed)) {
+      const uint64_t seq = opSeq.load(std::memory_order_acquire);
       if (opState.load(std::memory_order_relaxed) != 1) {
         vrt::sleepUs(50);
         continue;
@@ -95,7 +99,11 @@ struct Monitor {
       int hangSamples = 0;
       uint64_t lastExits = ~0ull;
       double nextSample = tStart + 0.05;
-      while (opState.load(std::memory_order_relaxed) == 1 && !quit.load(std::memory_order_relaxed)) {
+      long ticks0 = -1;
+      // leave as soon as this operation is over: a starved monitor must not carry one operation's
+      // parameters (gate site!) into the next one
+      while (opState.load(std::memory_order_relaxed) == 1 && opSeq.load(std::memory_order_acquire) == seq &&
+             !quit.load(std::memory_order_relaxed)) {
         double now = vrt::nowSeconds();
         if (!gateOpened) {
           bool passed = vrt::hookHits(afterStopSite.load(std::memory_order_relaxed)) > hits0.load(std::memory_order_relaxed);
@@ -116,13 +124,30 @@ struct Monitor {
             if (ws == 'S') ++asleep;
           }
           vrt::FutexStats fs = vrt::futexStats();
-          char cs = tidState(mainTid.load(std::memory_order_relaxed));
+          TidStat ms = tidStat(mainTid.load(std::memory_order_relaxed));
+          char cs = ms.state;
+          // Starvation is not a hang: while the caller or a worker of the stopped generation is
+          // runnable/running (not asleep) and together they have burnt less than 8 CPU seconds inside
+          // this call, count it as movement. A livelock keeps burning CPU and runs out of this budget,
+          // a deadlock has everybody asleep: both still reach the watchdog.
+          {
+            long ticks = ms.ticks;
+            bool anyRunnable = cs != 'S';
+            for (int i = 0; i < n; ++i) {
+              TidStat w = tidStat(oldTid[i].load(std::memory_order_relaxed));
+              if (w.state == 0) continue;
+              ticks += w.ticks;
+              if (w.state == 'R' || w.state == 'D') anyRunnable = true;
+            }
+            if (ticks0 < 0) ticks0 = ticks;
+            if (anyRunnable && ticks - ticks0 < 800) vrt::progress();
+          }
           // every surviving worker: counted inside a timed futex wait AND asleep for the kernel
           bool c = judge.load(std::memory_order_relaxed) && gateOpened && alive > 0 && asleep == alive && fs.inTimedWaitNow == alive && cs == 'S';
           if (c && (hangSamples == 0 || fs.waitExits == lastExits)) ++hangSamples;
           else hangSamples = c ? 1 : 0;
           lastExits = fs.waitExits;
-          if (hangSamples >= 3 && opState.load(std::memory_order_relaxed) == 1) {
+          if (hangSamples >= 3 && opState.load(std::memory_order_relaxed) == 1 && opSeq.load(std::memory_order_acquire) == seq) {
             std::vector<int> parkedTids;
             for (int i = 0; i < n; ++i) {
               int t = oldTid[i].load(std::memory_order_relaxed);
@@ -174,6 +199,9 @@ void monitoredOp(Ctx& c, const std::vector<int>& oldWorkers, bool judge, int gat
   m.afterStopSite.store(afterStopSite, std::memory_order_relaxed);
   m.hits0.store(vrt::hookHits(afterStopSite), std::memory_order_relaxed);
   m.subkeyFinal.store(finalDtor ? 1 : 0, std::memory_order_relaxed);
+  std::vector<long long> oldStart;
+  for (int t : oldWorkers) oldStart.push_back(tidStat(t).start);
+  m.opSeq.fetch_add(1, std::memory_order_release);
   m.opState.store(1, std::memory_order_relaxed);
   op();
   m.opState.store(0, std::memory_order_relaxed);
@@ -185,16 +213,29 @@ void monitoredOp(Ctx& c, const std::vector<int>& oldWorkers, bool judge, int gat
   for (int attempt = 0; attempt < 400; ++attempt) {
     live = liveWorkers(c);
     if (live.size() <= expectNew) break;
+    vrt::progress();
     vrt::sleepUs(500);
   }
-  if (live.size() > expectNew) {
-    std::vector<int> stale;
-    for (int t : live) {
-      if (std::binary_search(oldWorkers.begin(), oldWorkers.end(), t)) stale.push_back(t);
+  // identity check: a thread of the stopped generation that is still alive (same tid AND same start
+  // time) although the call returned. Needed where old and new configuration have the same size.
+  std::vector<int> stale;
+  for (int attempt = 0; attempt < 400; ++attempt) {
+    stale.clear();
+    for (size_t i = 0; i < oldWorkers.size(); ++i) {
+      TidStat ts = tidStat(oldWorkers[i]);
+      if (ts.state != 0 && ts.state != 'Z' && ts.state != 'X' && ts.state != 'x' && ts.start == oldStart[i] && oldStart[i] != 0) {
+        stale.push_back(oldWorkers[i]);
+      }
     }
+    if (stale.empty()) break;
+    vrt::progress();
+    vrt::sleepUs(500);
+  }
+  if (live.size() > expectNew || !stale.empty()) {
     vrt::violation(
-        "after the call returned, more worker threads exist than the new configuration has: " + std::to_string(live.size()) +
-            " live non-harness threads, expected " + std::to_string(expectNew),
+        "after the call returned, worker threads of the previous configuration are still alive: " + std::to_string(stale.size()) +
+            " thread(s) of the stopped generation, " + std::to_string(live.size()) + " live non-harness threads, new configuration has " +
+            std::to_string(expectNew),
         J().kv("live", static_cast<long>(live.size())).kv("expected", static_cast<long>(expectNew)).arr("staleTidsOfOldGeneration", stale),
         std::string(subkey) + (subkey[0] ? "/" : "") + "stale-worker");
   }
@@ -244,6 +285,10 @@ Spec genSpec(vrt::Rng& r, long idx) {
   s.gateOpenMode = r.chance(0.3) ? 1 : 0;
   s.openDelayUs = r.chance(0.3) ? 0 : static_cast<int>(r.range(1, 1500));
   // normalisation
+  const int nmax = static_cast<int>(vrt::g_args.getInt("nmax", 17)); // sanitizer runs cap the pool size
+  if (s.N > nmax) s.N = nmax;
+  if (s.m > nmax) s.m = nmax;
+  if (s.m == s.N) s.m = s.N > 0 ? s.N - 1 : 1;
   if (s.N == 0) {
     s.phase = kParked;
     s.hist = 0;
@@ -307,7 +352,10 @@ void runC09() {
             },
             dispenso::ForceQueuingTag());
         double t0 = vrt::nowSeconds();
-        while (!done.load(std::memory_order_relaxed) && vrt::nowSeconds() - t0 < 30.0) vrt::sleepUs(50);
+        while (!done.load(std::memory_order_relaxed) && vrt::nowSeconds() - t0 < 30.0) {
+          if (!allAsleep(workers)) vrt::progress();
+          vrt::sleepUs(50);
+        }
       }
     }
 
@@ -334,7 +382,10 @@ void runC09() {
             dispenso::TaskSet hs(*pool);
             hs.scheduleBulk(static_cast<size_t>(s.N), [](size_t) { return []() { holderBody(); }; });
             double t0 = vrt::nowSeconds();
-            while (g_holdersIn.load(std::memory_order_relaxed) < s.N && vrt::nowSeconds() - t0 < 20.0) vrt::sleepUs(50);
+            while (g_holdersIn.load(std::memory_order_relaxed) < s.N && vrt::nowSeconds() - t0 < 20.0) {
+              if (!allAsleep(workers)) vrt::progress();
+              vrt::sleepUs(50);
+            }
             pool->scheduleBulk(static_cast<size_t>(s.nbusy), [](size_t i) {
               int ii = static_cast<int>(i);
               return [ii, p = payload(ii)]() { unitBody(ii); };
@@ -361,7 +412,10 @@ void runC09() {
         if (wake) parkedOk = waitAllParked(*pool, workers) && parkedOk;
         vrt::gateArm(gateSite);
         ringBulkNoop(*pool, s.N, r); // wakes every worker; on its way back to sleep the first one parks in the gate
-        gateReached = vrt::gateWaitArrived(gateSite, 5000);
+        for (int w = 0; w < 200 && !gateReached; ++w) {
+          gateReached = vrt::gateWaitArrived(gateSite, 50);
+          vrt::progress();
+        }
         if (!gateReached) {
           vrt::inconclusive("gate not reached");
           vrt::gateOpen(gateSite);
